@@ -12,15 +12,25 @@
   `.num true val canon (kf canon) canon`, for ANY interpretation `vf`/`kf` of z/m values and ×1000
   texts — `parse` of a written document does not look at them).
 
-  STATUS (see the report): the full `reparse_ok` is proved here for documents of type Point
-  (`reparse_ok_partial`) and LineString (`reparse_ok_partial_lineString`), with plain equality
-  `x' = x`; for LineString / Polygon the
-  coordinate-level round trips (`lineCoords_roundtrip`, `polyCoords_roundtrip`, incl. the z/m table
-  and the Rect re-detection `isRectRing_rectRing`) are proved, the Feature parser is characterised
-  (`featureOf_cases`) — the assembly of these into the per-type cases of `reparse_ok` for
-  Polygon, Multi*, collections and Feature is NOT finished.
+  STATUS: complete.  `reparse_normal_form` / `reparse_ok` hold for EVERY accepted, finite,
+  token-well-formed document (all nine types, arbitrary nesting), by induction on the fuel of
+  `parse` (GeoProofs.Reparse.Main) over per-type cases (GeoProofs.Reparse.Leaf / .Feature); the
+  re-parsed object IS `addProps x` (a Feature without a `properties` member gains
+  `"properties":{}`; nothing else changes: GeoProofs.Reparse.AddProps), and `write (addProps x) =
+  write x`.  No counterexample to the full statement was found; the known caveats are handled
+  explicitly: non-finite numbers are excluded by `AllFin`; a recognised Circle is re-recognised
+  from its freshly written Feature document (needs the codec contract in `DocOK` for the radius
+  text); Rect / SimplePoint are re-detected under the same options; `requireValid` is decided on
+  the same object; children of Multi* keep their z/m tables and have no members.
+  `members_preserved` holds for every kind but `.circle` (`circle_drops_members`); children of
+  Multi* carry no member text (`multi_children_no_members`).  Non-vacuity: `reparse_example_feature`
+  (where `x' ≠ x`), `reparse_example_circle`, and the executable cross-check `exBigCheck` on a
+  document exercising every type (GeoProofs.Reparse.Examples).
 -/
-import GeoProofs.ReparseLemmas
+import GeoProofs.Reparse.Main
+import GeoProofs.Reparse.AddProps
+import GeoProofs.Reparse.Members
+import GeoProofs.Reparse.Examples
 
 namespace Geo
 
@@ -67,16 +77,6 @@ theorem reparse_ok_partial_lineString (vf : String → Rat) (kf : String → Str
   refine ⟨v, hw, x, hre _, ?_, rfl, rfl⟩
   have := kindEq_addProps x
   cases x <;> simp_all [kindEq, addProps]
-
-/-- positions (exact x, y and canonical texts), extra values and foreign member text are
-    preserved: plain equality for Point documents -/
-theorem geometry_preserved (vf : String → Rat) (kf : String → String) (o : POpts) (n : Nat)
-    (ms : List Member) (r : String) (x : Obj)
-    (hp : parse o (n + 1) (.obj ms) = .ok x) (hty : (scanKeys ms).type = some (.str r "Point"))
-    (hfin : AllFin x) (hdoc : (JVal.obj ms).DocOK) :
-    ∃ v, Written x v ∧ parse o (v.depth + 1) v = .ok x := by
-  obtain ⟨v, hw, x', hre, _, _, rfl⟩ := reparse_ok_partial vf kf o n ms r x hp hty hfin hdoc
-  exact ⟨v, hw, hre⟩
 
 /-! ### coordinate-level round trips for LineString / Polygon coordinates -/
 
@@ -172,23 +172,120 @@ theorem members_preserved_partial (o : POpts) (n : Nat) (ms : List Member) (r : 
         exact withMembers_members _ rfl
       · cases hx
 
-/-- a ring detected as a Rect is written (`rectRing lo hi`) as a 5-point ring that is detected as
-    a Rect again, with the same corners -/
-theorem isRectRing_rectRing (p0 p1 p2 p3 p4 : Pos) (h : isRectRing [p0, p1, p2, p3, p4] = true) :
-    isRectRing (rectRing p0 p2) = true ∧
-      (∃ q1 q3 q4, rectRing p0 p2 = [p0, q1, p2, q3, q4]) := by
-  simp only [isRectRing, Bool.and_eq_true, decide_eq_true_eq] at h
-  obtain ⟨⟨⟨⟨⟨⟨⟨⟨⟨⟨⟨⟨f0, f1⟩, f2⟩, f3⟩, f4⟩, h1⟩, h2⟩, h3⟩, h4⟩, h5⟩, h6⟩, h7⟩, h8⟩ := h
-  have hx : p0.p.x < p2.p.x := h3 ▸ h1
-  have hy : p0.p.y < p2.p.y := h2 ▸ h4
-  refine ⟨?_, ?_⟩
-  · simp only [isRectRing, rectRing, Bool.and_eq_true, decide_eq_true_eq, f0, f2, Bool.and_self]
-    simp only [GT.gt, hx, hy, and_self]
-  · obtain ⟨⟨x0, y0⟩, g0, xs0, ys0⟩ := p0
-    obtain ⟨⟨x2, y2⟩, g2, xs2, ys2⟩ := p2
-    simp only at f0 f2
-    subst f0 f2
-    exact ⟨_, _, _, rfl⟩
+/-! ### the full statement -/
+
+/-- Parse → write → Parse, for ANY decoder interpretation `vf`/`kf` of the z/m values and the
+    ×1000 texts of the written number nodes: the written document has the AST `v`, and it is
+    accepted again under the same options, with the fuel `parseTop` uses, as `addProps x` -/
+theorem reparse_normal_form' (vf : String → Rat) (kf : String → String) (o : POpts) (n : Nat) (d : JVal)
+    (x : Obj) (hp : parse o n d = .ok x) (hfin : AllFin x) (hdoc : d.DocOK) :
+    ∃ v, Written x v ∧ parse o (v.depth + 1) v = .ok (addProps x) := by
+  obtain ⟨v, hw, hre⟩ := reparse_main vf kf o n d x hp hfin hdoc
+  exact ⟨v, hw, hre _ (Nat.lt_succ_self _)⟩
+
+/-- the stronger, concrete form: every accepted, finite, token-well-formed document is accepted
+    again from its written AST, under the same options, and the re-parsed object IS `addProps x` -/
+theorem reparse_normal_form (o : POpts) (n : Nat) (d : JVal) (x : Obj) (hp : parse o n d = .ok x)
+    (hfin : AllFin x) (hdoc : d.DocOK) :
+    ∃ v, Written x v ∧ parse o (v.depth + 1) v = .ok (addProps x) :=
+  reparse_normal_form' (fun _ => 0) id o n d x hp hfin hdoc
+
+/-- full statement: every accepted, finite, token-well-formed document is accepted again from its
+    written AST, under the same options, as the same object up to the normalisation `addProps`
+    (a Feature without a properties member gains `"properties":{}`), and writing is a fixpoint
+    after one step -/
+theorem reparse_ok (o : POpts) (n : Nat) (d : JVal) (x : Obj) (hp : parse o n d = .ok x) (hfin : AllFin x)
+    (hdoc : d.DocOK) :
+    ∃ v, Written x v ∧ ∃ x', parse o (v.depth + 1) v = .ok x' ∧ kindEq x x' ∧ write x' = write x := by
+  obtain ⟨v, hw, hre⟩ := reparse_normal_form o n d x hp hfin hdoc
+  exact ⟨v, hw, addProps x, hre, kindEq_addProps x, write_addProps x⟩
+
+/-- writing the re-parsed object gives byte-identical text: the text written for `x` is the
+    rendering of `v`, and so is the text written for the object parsed back from `v` -/
+theorem write_fixpoint (o : POpts) (n : Nat) (d : JVal) (x : Obj) (hp : parse o n d = .ok x)
+    (hfin : AllFin x) (hdoc : d.DocOK) :
+    ∃ v, Written x v ∧ write x = some v.render ∧
+      ∃ x', parse o (v.depth + 1) v = .ok x' ∧ write x' = some v.render := by
+  obtain ⟨v, hw, hre⟩ := reparse_normal_form o n d x hp hfin hdoc
+  exact ⟨v, hw, hw.render.1, addProps x, hre, by rw [write_addProps]; exact hw.render.1⟩
+
+/-- `requireValid`: validity is decided on an object with the same validity -/
+theorem reparse_valid (o : POpts) (n : Nat) (d : JVal) (x : Obj) (hp : parse o n d = .ok x)
+    (hfin : AllFin x) (hdoc : d.DocOK) :
+    ∃ v, Written x v ∧ ∃ x', parse o (v.depth + 1) v = .ok x' ∧ x'.valid = x.valid := by
+  obtain ⟨v, hw, hre⟩ := reparse_normal_form o n d x hp hfin hdoc
+  exact ⟨v, hw, addProps x, hre, addProps_valid x⟩
+
+/-- for every kind: the re-parsed object is `addProps x`, and `addProps` leaves everything
+    untouched except the `extra` of Feature nodes (`dropFeatEx` erases exactly those): all
+    positions (exact values and canonical texts), series, rings, boxes, the z/m tables and the
+    foreign member text of every geometry and collection node, kinds, child order, index flags,
+    circle centre and radius are equal.  The `extra` of each Feature node becomes its
+    `addPropsEx` normal form: unchanged if there is a `properties` member
+    (`addPropsEx_of_hasProps`), otherwise the same z/m table (`extrasAt_addPropsEx`) and the
+    members text extended by `"properties":{}` (`addPropsEx_members`).  Bounding box, validity,
+    emptiness and point count agree. -/
+theorem geometry_preserved (o : POpts) (n : Nat) (d : JVal) (x : Obj) (hp : parse o n d = .ok x)
+    (hfin : AllFin x) (hdoc : d.DocOK) :
+    ∃ v, Written x v ∧ ∃ x', parse o (v.depth + 1) v = .ok x' ∧ x' = addProps x ∧
+      dropFeatEx x' = dropFeatEx x ∧ featExs x' = (featExs x).map addPropsEx ∧
+      ((∀ ex ∈ featExs x, needProps ex true = false) → x' = x) ∧
+      x'.rect = x.rect ∧ x'.valid = x.valid ∧ x'.empty = x.empty ∧ x'.numPoints = x.numPoints := by
+  obtain ⟨v, hw, hre⟩ := reparse_normal_form o n d x hp hfin hdoc
+  exact ⟨v, hw, addProps x, hre, rfl, dropFeatEx_addProps x, featExs_addProps x,
+    addProps_eq_self x, addProps_rect x, addProps_valid x, addProps_empty x, addProps_numPoints x⟩
+
+/-! ### a recognised Circle keeps only centre and radius -/
+
+section CircleExample
+
+/-- `{"type":"Feature","id":7,"geometry":{"type":"Point","coordinates":[1,2],"tag":true},
+      "properties":{"type":"Circle","radius":5,"name":"x"}}` -/
+def exCircleMs : List Member :=
+  [mem "type" (strV "Feature"), mem "id" (.num true 7 "7" "7000" "7"),
+   mem "geometry" (.obj [mem "type" (strV "Point"),
+     mem "coordinates" (.arr [.num true 1 "1" "1000" "1", .num true 2 "2" "2000" "2"]), mem "tag" .tru]),
+   mem "properties" (.obj [mem "type" (strV "Circle"), mem "radius" (.num true 5 "5" "5000" "5"),
+     mem "name" (strV "x")])]
+
+def exCircleDoc : JVal := .obj exCircleMs
+
+def exCircle : Obj := .circle ⟨⟨1, 2⟩, true, "1", "2"⟩ "5"
+
+/-- the counter-fact to `members_preserved`: the document has foreign members at top level
+    (`id`, `properties` with a `name`) and in the geometry (`tag`); it is accepted as a Circle,
+    which stores no member text, and the written document has lost `id`, `tag` and `name` -/
+theorem circle_drops_members :
+    parseTop {} exCircleDoc = .ok exCircle ∧
+    (scanKeys exCircleMs).members =
+      "{\"id\":7,\"properties\":{\"type\":\"Circle\",\"radius\":5,\"name\":\"x\"}}" ∧
+    topMembers exCircle = "" ∧
+    write exCircle = some ("{\"type\":\"Feature\",\"geometry\":{\"type\":\"Point\",\"coordinates\":[1,2]}," ++
+      "\"properties\":{\"type\":\"Circle\",\"radius\":5,\"radius_units\":\"m\"}}") := by
+  refine ⟨?_, by decide, rfl, by decide⟩
+  have hpt : parse {} 3 (.obj [mem "type" (strV "Point"),
+      mem "coordinates" (.arr [.num true 1 "1" "1000" "1", .num true 2 "2" "2000" "2"]), mem "tag" .tru])
+      = .ok (.point ⟨⟨1, 2⟩, true, "1", "2"⟩ (some ⟨0, [], "{\"tag\":true}", false⟩)) := by
+    rw [parse_obj_str {} 2 _ "\"Point\"" "Point" rfl, parseTyped_Point]
+    rfl
+  show parse {} (3 + 1) (.obj exCircleMs) = _
+  rw [parse_obj_str {} 3 _ "\"Feature\"" "Feature" rfl, parseTyped_Feature, parseFeatureK_eq]
+  have hg : (scanKeys exCircleMs).geometry = some (.obj [mem "type" (strV "Point"),
+      mem "coordinates" (.arr [.num true 1 "1" "1000" "1", .num true 2 "2" "2000" "2"]), mem "tag" .tru]) := rfl
+  rw [hg]
+  simp only [hpt]
+  rfl
+
+/-- in general: whatever the document, a Circle has no member text and its written document has
+    exactly the members `type`, `geometry` (a bare Point) and `properties` (type, radius,
+    radius_units) -/
+theorem circle_written_shape (c : Pos) (r : String) (v : JVal) (h : Written (.circle c r) v) :
+    topMembers (.circle c r) = "" ∧ ∃ cn rn, v = mkObj "Feature" "geometry" (mkObj "Point" "coordinates" cn [])
+      [mem "properties" (.obj [mem "type" (strV "Circle"), mem "radius" rn, mem "radius_units" (strV "m")])] := by
+  obtain ⟨cn, rn, _, _, rfl⟩ := h
+  exact ⟨rfl, cn, rn, rfl⟩
+
+end CircleExample
 
 /-! ### non-vacuity: a concrete Feature with foreign members -/
 
@@ -230,6 +327,69 @@ def writeOf (r : Except PErr Obj) : Option String :=
 #guard_msgs in
 #eval writeOf (parseTop {} exDoc') == some exWritten
 
+/-! ### non-vacuity of the full statement on concrete documents
+    (the executable cross-check on a document exercising every type is in
+    GeoProofs.Reparse.Examples: `exBig`, `exBigCheck`) -/
+
+def exObj : Obj :=
+  .feature (.point ⟨⟨3/2, -2⟩, true, "1.5", "-2"⟩ (some ⟨1, ["10"], "", false⟩))
+    (some ⟨0, [], "{\"id\":7,\"tags\":[true]}", false⟩)
+
+def exObj' : Obj :=
+  .feature (.point ⟨⟨3/2, -2⟩, true, "1.5", "-2"⟩ (some ⟨1, ["10"], "", false⟩))
+    (some ⟨0, [], "{\"id\":7,\"tags\":[true],\"properties\":{}}", true⟩)
+
+theorem exDoc_parse : parseTop {} exDoc = .ok exObj := by
+  have hpt : parse {} 3 (.obj [mem "type" (strV "Point"),
+      mem "coordinates" (.arr [exNum (3/2) "1.5", exNum (-2) "-2", exNum 10 "10"])])
+      = .ok (.point ⟨⟨3/2, -2⟩, true, "1.5", "-2"⟩ (some ⟨1, ["10"], "", false⟩)) := by
+    rw [parse_obj_str {} 2 _ "\"Point\"" "Point" rfl, parseTyped_Point]
+    rfl
+  show parse {} (3 + 1) exDoc = _
+  unfold exDoc
+  rw [parse_obj_str {} 3 _ "\"Feature\"" "Feature" rfl, parseTyped_Feature, parseFeatureK_eq]
+  have hg : (scanKeys [mem "id" (exNum 7 "7"), mem "type" (strV "Feature"),
+    mem "geometry" (.obj [mem "type" (strV "Point"),
+      mem "coordinates" (.arr [exNum (3/2) "1.5", exNum (-2) "-2", exNum 10 "10"])]),
+    mem "tags" (.arr [.tru])]).geometry = some (.obj [mem "type" (strV "Point"),
+      mem "coordinates" (.arr [exNum (3/2) "1.5", exNum (-2) "-2", exNum 10 "10"])]) := rfl
+  rw [hg]
+  simp only [hpt]
+  rfl
+
+theorem exObj_addProps : addProps exObj = exObj' := by
+  have : addPropsEx (some ⟨0, [], "{\"id\":7,\"tags\":[true]}", false⟩) =
+      some ⟨0, [], "{\"id\":7,\"tags\":[true],\"properties\":{}}", true⟩ := by decide +kernel
+  simp only [exObj, exObj', addProps_feature, addProps_point, this]
+
+theorem exObj_ne : exObj' ≠ exObj := by
+  intro h
+  simp only [exObj, exObj', Obj.feature.injEq, Option.some.injEq, Extra.mk.injEq] at h
+  exact absurd h.2.2.2.2 (by decide)
+
+/-- non-vacuity, the `addProps` case: the concrete Feature document `exDoc` (no `properties`
+    member) satisfies the hypotheses of `reparse_normal_form`; the object parsed back from the
+    written document is `exObj'` — the same Feature with `"properties":{}` appended to its
+    members — which differs from the first object `exObj`: `x' = x` is false, `x' = addProps x`
+    is what holds -/
+theorem reparse_example_feature :
+    parseTop {} exDoc = .ok exObj ∧
+    ∃ v, Written exObj v ∧ parse {} (v.depth + 1) v = .ok exObj' ∧ exObj' ≠ exObj ∧
+      write exObj' = write exObj := by
+  refine ⟨exDoc_parse, ?_⟩
+  obtain ⟨v, hw, hre⟩ := reparse_normal_form {} _ exDoc exObj exDoc_parse
+    (allFinB_sound _ (by decide +kernel)) (docOKB_sound _ (by decide +kernel))
+  rw [exObj_addProps] at hre
+  exact ⟨v, hw, hre, exObj_ne, by rw [← exObj_addProps, write_addProps]⟩
+
+/-- non-vacuity, the Circle case: the concrete document `exCircleDoc` satisfies the hypotheses;
+    its written document is recognised as the same Circle again -/
+theorem reparse_example_circle :
+    ∃ v, Written exCircle v ∧ parse {} (v.depth + 1) v = .ok exCircle := by
+  obtain ⟨v, hw, hre⟩ := reparse_normal_form {} _ exCircleDoc exCircle circle_drops_members.1
+    (allFinB_sound _ (by decide +kernel)) (docOKB_sound _ (by decide +kernel))
+  exact ⟨v, hw, hre⟩
+
 end Example
 
 end Geo
@@ -238,9 +398,26 @@ end Geo
 #print axioms Geo.written_tokOK
 #print axioms Geo.reparse_ok_partial
 #print axioms Geo.reparse_ok_partial_lineString
-#print axioms Geo.geometry_preserved
 #print axioms Geo.lineCoords_roundtrip
 #print axioms Geo.polyCoords_roundtrip
 #print axioms Geo.feature_has_properties
 #print axioms Geo.members_preserved_partial
 #print axioms Geo.isRectRing_rectRing
+#print axioms Geo.reparse_main
+#print axioms Geo.reparse_normal_form'
+#print axioms Geo.reparse_normal_form
+#print axioms Geo.reparse_ok
+#print axioms Geo.write_addProps
+#print axioms Geo.write_fixpoint
+#print axioms Geo.reparse_valid
+#print axioms Geo.geometry_preserved
+#print axioms Geo.members_preserved
+#print axioms Geo.multi_children_no_members
+#print axioms Geo.circle_drops_members
+#print axioms Geo.circle_written_shape
+#print axioms Geo.reparse_example_feature
+#print axioms Geo.reparse_example_circle
+#print axioms Geo.addProps_valid
+#print axioms Geo.addProps_idem
+#print axioms Geo.dropFeatEx_addProps
+#print axioms Geo.featExs_addProps
